@@ -17,10 +17,11 @@ namespace SaoVerif
 
 def mayWrite (md : Metadata) (sigDid : Did) : Bool := md.owner = sigDid || md.readwriteDids.contains sigDid
 
-theorem C09_store_unauthorised (e : Env) (s : State) (m : StoreMsg) (md : Metadata)
+/-- the checks of `Store` fail for an unauthorised request on an existing model -/
+theorem C09_store_guards_unauthorised (s : State) (m : StoreMsg) (md : Metadata)
     (hmeta : s.getMeta m.p.dataId = some md) (hun : m.sigValid = false ∨ mayWrite md m.sigDid = false) :
-    ∃ msg, saoStore e s m = .error msg := by
-  unfold saoStore
+    ∃ msg, storeGuards s m = .error msg := by
+  unfold storeGuards
   rcases hun with h | h
   · simp [h, bind, Except.bind, throw, throwThe, MonadExceptOf.throw]
   · by_cases hs : m.sigValid
@@ -30,6 +31,12 @@ theorem C09_store_unauthorised (e : Env) (s : State) (m : StoreMsg) (md : Metada
       repeat' split
       all_goals exact ⟨_, rfl⟩
     · simp [hs, bind, Except.bind, throw, throwThe, MonadExceptOf.throw]
+
+theorem C09_store_unauthorised (e : Env) (s : State) (m : StoreMsg) (md : Metadata)
+    (hmeta : s.getMeta m.p.dataId = some md) (hun : m.sigValid = false ∨ mayWrite md m.sigDid = false) :
+    ∃ msg, saoStore e s m = .error msg := by
+  obtain ⟨msg, hg⟩ := C09_store_guards_unauthorised s m md hmeta hun
+  exact ⟨msg, by unfold saoStore; simp only [bind, Except.bind, hg]⟩
 
 theorem C09_terminate_unauthorised (e : Env) (s : State) (c p : Addr) (owner : Did) (d : Bytes) (sv : Bool) (sd : Did) (md : Metadata)
     (hmeta : s.getMeta d = some md) (hun : sv = false ∨ mayWrite md sd = false) :
